@@ -3,43 +3,38 @@ import GdcVerif.Model.J2kTiles
 import GdcVerif.Lemmas.J2kSample
 import GdcVerif.Lemmas.J2kHeaderCodes
 import GdcVerif.Lemmas.J2kResDims
+import GdcVerif.Lemmas.J2kTagTree
+import GdcVerif.Lemmas.J2kBio
+import GdcVerif.Lemmas.J2kBandState
 /-!
   C04 — JPEG 2000 reversible path, single tile: exact reconstruction for every configuration.
 
-  Property theorems only.  Proved layers: sample (de)serialisation + DC level shift, code-block pass layout
+  Property theorems only.  Proved layers: sample (de)serialisation + DC level shift (full), code-block pass layout
   (generated kernel) and its reading by the decoder, single-tile sub-band split agreement (x0 = 0 instance of
   C19's theorems), packet-header codes (pass count, comma code, fixed-width fields) on bit lists, the bit
   writer's 0xFF invariants, and the composition of abstract layers.  NOT modelled: MQ coder and EBCOT T1 (C20),
-  tag trees, packet sequencing (packet_encoder.go / packet_decoder.go / tile_decoder.go); the bioWriter ↔
-  bioReader byte-level round trip is modelled (Model/J2kSample.lean) and tied by correspondence but not proved.
+  packet sequencing (packet_encoder.go / packet_decoder.go / tile_decoder.go).
 -/
 namespace J2k
 open Gen.J2kTiles
 
-/-- FULL statement of the sample layer, as the property reads the container: for every precision 1..16,
-    signed or unsigned, every sample that fits: container → convertPixelData → DC shift → (exact core) →
-    inverse DC shift → GetPixelData gives the container bytes back -/
-def sample_roundtrip_FullStatement : Prop :=
-  ∀ (P : Int) (signed : Bool) (s : Int), 1 ≤ P → P ≤ 16 → inRange P signed s →
-    sampleRoundTrip P signed s = container P s
-
-/-- proved part: everything except negative signed samples at P < 8 (there the code reads the byte as 8-bit
-    two's complement: sign from bit 7 instead of bit P−1) -/
-theorem sample_roundtrip_partial (P : Int) (signed : Bool) (s : Int) (hP1 : 1 ≤ P) (hP2 : P ≤ 16)
-    (hr : inRange P signed s) (hb : ¬ (signed = true ∧ P < 8 ∧ s < 0)) :
-    sampleRoundTrip P signed s = container P s := sample_roundtrip' P signed s hP1 hP2 hr hb
+/-- sample layer, as the property reads the container: for every precision 1..16, signed or unsigned, every
+    sample that fits: container → convertPixelData → DC shift → (exact core) → inverse DC shift → GetPixelData
+    gives the container bytes back.  (Full strength since fix 81cd602; before it the 8-bit branch took the sign
+    from bit 7.) -/
+theorem sample_roundtrip (P : Int) (signed : Bool) (s : Int) (hP1 : 1 ≤ P) (hP2 : P ≤ 16)
+    (hr : inRange P signed s) :
+    sampleRoundTrip P signed s = container P s := sample_roundtrip' P signed s hP1 hP2 hr
 
 example : inRange 12 true (-2048) ∧ inRange 8 true (-128) ∧ inRange 1 false 1 ∧ inRange 7 true 63 ∧
     sampleRoundTrip 12 true (-2048) = (0, 8) ∧ sampleRoundTrip 8 true (-128) = (128, 0) := by
   unfold inRange; decide
 
-/-- the FULL statement is false on the unchanged tree: P = 4, signed, sample −3: container byte 0x0D is read
-    as +13 and comes back clamped to +7 (byte 0x07) -/
-theorem sample_roundtrip_counterexample : ¬ sample_roundtrip_FullStatement := by
-  intro h
-  have := h 4 true (-3) (by decide) (by decide) (by unfold inRange; decide)
-  revert this
-  decide
+/-- regression anchor (old defect `j2k-signed-p-lt8-container`): P = 4, signed, sample −3 in container byte 0x0D
+    is read as −3 (was +13) and comes back as 0x0D (was 0x07); a sign-extended container byte 0xFD reads the same -/
+example : inRange 4 true (-3) ∧ container 4 (-3) = (13, 0) ∧ readSample 4 true 13 0 = -3 ∧
+    readSample 4 true 0xFD 0 = -3 ∧ sampleRoundTrip 4 true (-3) = (13, 0) := by
+  unfold inRange; decide
 
 /-- code-block pass layout (generated from encoder.go codeBlockPassLayout), classic EBCOT mode:
     numPasses = 3·bps − 2, the missing MSB planes add up to the band's bit planes, the count fits the
@@ -65,13 +60,62 @@ theorem passLayout_zero (e : Encoder) (hht : e.params.HTJ2KMode = false) (band :
   unfold Encoder.codeBlockPassLayout
   simp [hht]; omega
 
-/-- single tile (origin 0): the encoder's sub-band extents (tile-local ceil splits) are the ones the wavelet
-    and the decoder use, for every size and level count — the x0 = 0 instance of C19 (4c) -/
+/-- single tile (origin 0): the encoder's sub-band extents are the ones the wavelet and the decoder use, and they
+    are the ceil splits ⌈len/2ⁿ⌉, for every size and level count — the x0 = 0 instance of C19 (4c) -/
 theorem single_tile_subband_split_agrees (len : Int) (n : Nat) (hl : 0 ≤ len) :
-    (resDims len 0 n).1 = encLowLen len n ∧ (resDimsT2 len 0 n) = resDims len 0 n :=
-  ⟨aligned_agree len 0 n hl (by simp), resDimsT2_eq len 0 n⟩
+    encLowLen len 0 n = (resDimsT2 len 0 n).1 ∧ encLowLen len 0 n = ceilDivPow2 len n := by
+  refine ⟨by unfold encLowLen; rw [resDimsT2_eq], ?_⟩
+  unfold encLowLen; exact aligned_agree len 0 n hl (by simp)
 
-example : (resDims 37 0 3).1 = 5 ∧ encLowLen 37 3 = 5 := by decide
+example : (resDims 37 0 3).1 = 5 ∧ encLowLen 37 0 3 = 5 := by decide
+
+/-- code-block partition of a sub-band: encoder (partitionIntoCodeBlocks) and decoder (buildAndDecodeCodeBlocks)
+    cut the SAME rectangle for every grid position, each is non-empty and inside the band, every coefficient of
+    the band lies in the block (⌊x/cbw⌋, ⌊y/cbh⌋) of the grid, and in no other — for every band and block size ≥ 1 -/
+theorem codeblocks_partition_subband (bw bh cbw cbh : Int) (hbw : 1 ≤ bw) (hbh : 1 ≤ bh) (hcw : 1 ≤ cbw) (hch : 1 ≤ cbh) :
+    (∀ cbx cby, encCbRect bw bh cbw cbh cbx cby = decCbRect bw bh cbw cbh cbx cby) ∧
+    (∀ cbx cby, 0 ≤ cbx → cbx < numCb bw cbw → 0 ≤ cby → cby < numCb bh cbh →
+      let r := encCbRect bw bh cbw cbh cbx cby
+      0 ≤ r.1 ∧ r.1 < r.2.2.1 ∧ r.2.2.1 ≤ bw ∧ 0 ≤ r.2.1 ∧ r.2.1 < r.2.2.2 ∧ r.2.2.2 ≤ bh) ∧
+    (∀ x y, 0 ≤ x → x < bw → 0 ≤ y → y < bh →
+      0 ≤ x / cbw ∧ x / cbw < numCb bw cbw ∧ 0 ≤ y / cbh ∧ y / cbh < numCb bh cbh ∧
+      inRect (encCbRect bw bh cbw cbh (x / cbw) (y / cbh)) x y) ∧
+    (∀ x y cbx cby, inRect (encCbRect bw bh cbw cbh cbx cby) x y → cbx = x / cbw ∧ cby = y / cbh) := by
+  have hn1 : numCb bw cbw = (bw + cbw - 1) / cbw := by unfold numCb; exact tdiv_eq_ediv (by omega)
+  have hn2 : numCb bh cbh = (bh + cbh - 1) / cbh := by unfold numCb; exact tdiv_eq_ediv (by omega)
+  refine ⟨fun _ _ => rfl, ?_, ?_, ?_⟩
+  · intro cbx cby h1 h2 h3 h4
+    rw [hn1] at h2; rw [hn2] at h4
+    have hx := tile_start_lt (by omega : 0 < cbw) h2
+    have hy := tile_start_lt (by omega : 0 < cbh) h4
+    have hx0 : 0 ≤ cbx * cbw := Int.mul_nonneg h1 (by omega)
+    have hy0 : 0 ≤ cby * cbh := Int.mul_nonneg h3 (by omega)
+    show 0 ≤ (encCbRect bw bh cbw cbh cbx cby).1 ∧ (encCbRect bw bh cbw cbh cbx cby).1 < (encCbRect bw bh cbw cbh cbx cby).2.2.1 ∧
+      (encCbRect bw bh cbw cbh cbx cby).2.2.1 ≤ bw ∧ 0 ≤ (encCbRect bw bh cbw cbh cbx cby).2.1 ∧
+      (encCbRect bw bh cbw cbh cbx cby).2.1 < (encCbRect bw bh cbw cbh cbx cby).2.2.2 ∧ (encCbRect bw bh cbw cbh cbx cby).2.2.2 ≤ bh
+    unfold encCbRect
+    simp only []
+    refine ⟨hx0, ?_, ?_, hy0, ?_, ?_⟩ <;> split <;> omega
+  · intro x y hx0 hx hy0 hy
+    rw [hn1, hn2]
+    have a1 := ediv_mul_le' x (by omega : 0 < cbw)
+    have a2 := lt_ediv_mul_add x (by omega : 0 < cbw)
+    have b1 := ediv_mul_le' y (by omega : 0 < cbh)
+    have b2 := lt_ediv_mul_add y (by omega : 0 < cbh)
+    refine ⟨Int.ediv_nonneg hx0 (by omega), quot_lt_numTiles (by omega) hx, Int.ediv_nonneg hy0 (by omega),
+      quot_lt_numTiles (by omega) hy, ?_⟩
+    unfold inRect encCbRect
+    simp only []
+    refine ⟨a1, ?_, b1, ?_⟩ <;> split <;> omega
+  · intro x y cbx cby hin
+    unfold inRect encCbRect at hin
+    simp only [] at hin
+    obtain ⟨h1, h2, h3, h4⟩ := hin
+    constructor
+    · symm; apply ediv_unique (by omega) h1; split at h2 <;> omega
+    · symm; apply ediv_unique (by omega) h3; split at h4 <;> omega
+
+example : encCbRect 37 5 16 4 2 1 = (32, 4, 37, 5) ∧ numCb 37 16 = 3 ∧ numCb 5 4 = 2 := by decide
 
 /-- pass-count code: every count 1..164 decodes to itself and consumes exactly its code word -/
 theorem numPasses_roundtrip (n : Nat) (h1 : 1 ≤ n) (h2 : n ≤ 164) (rest : List Bool) :
@@ -90,6 +134,22 @@ theorem bits_roundtrip (n v : Nat) (hv : v < 2 ^ n) (rest : List Bool) :
 
 example : (5 : Nat) < 2 ^ 3 ∧ writeBitsL 5 3 = [true, false, true] := by decide
 
+/-- Lblock length coding (encodeCodeBlockLengths with one codeword segment / decodeDataLengthWithReader without
+    TERMALL): for every Lblock state, data length and pass count the increment rule makes the field wide enough
+    (`len < 2^(Lblock + ⌊log2 passes⌋)`), and the decoder gets back the same length AND the same new Lblock,
+    consuming exactly the code.  Hypothesis: the field is at most 32 bits wide (bioReader.readBits' limit; lengths
+    below 2^29 with ≤ 164 passes satisfy it from Lblock ≤ 29).  Not covered: contributions with a pass terminated
+    before the last (TERMALL / LAZY: several length fields; the decoder reads them only in TERMALL mode). -/
+theorem lblock_roundtrip (numLenBits dataLen newPasses : Nat) (rest : List Bool)
+    (hw : (encLen numLenBits dataLen newPasses).1 + floorLog2 newPasses ≤ 32) :
+    decLen numLenBits newPasses ((encLen numLenBits dataLen newPasses).2 ++ rest) =
+      some (dataLen, (encLen numLenBits dataLen newPasses).1, rest) ∧
+    dataLen < 2 ^ ((encLen numLenBits dataLen newPasses).1 + floorLog2 newPasses) :=
+  lblock_roundtrip' numLenBits dataLen newPasses rest hw
+
+example : encLen 0 512 34 = (5, [true, true, false] ++ writeBitsL 512 10) ∧ (encLen 0 512 34).1 + floorLog2 34 ≤ 32 ∧
+    floorLog2 34 = 5 ∧ floorLog2 0 = 0 ∧ floorLog2 1 = 0 := by decide
+
 /-- bioWriter: after emitting 0xFF the next byte has 7 usable bits, otherwise 8 (bit stuffing) -/
 theorem bio_byteOut_ct (w : BioW) :
     (w.byteOut.ct = 7 ↔ w.byteOut.buf.getLast? = some 255) ∧ (w.byteOut.ct = 7 ∨ w.byteOut.ct = 8) :=
@@ -102,18 +162,22 @@ theorem bio_flush_last_not_FF (w : BioW) : w.flush.getLast? ≠ some 255 ∧ w.f
 example : (BioW.new.writeBitsList (List.replicate 8 true)).flush = [255, 0] ∧
     (BioW.new.writeBitsList (List.replicate 9 true)).flush = [255, 64] := by decide
 
-/-- FULL statement of the bit I/O layer (modelled, tied by correspondence, NOT proved):
-    what bioWriter wrote and flushed, bioReader reads back bit for bit -/
-def bio_roundtrip_FullStatement : Prop :=
-  ∀ bits : List Bool,
-    ((BioR.new (BioW.new.writeBitsList bits).flush).readBitsList bits.length).map (·.1) = some bits
+/-- packet-header bit I/O, byte level, FULL: every non-empty header bit string (a header has at least its
+    packet-present bit) written by bioWriter and flushed is read back by bioReader bit for bit from
+    `stream ++ rest` — 0xFF stuffing included — and `alignToByte` leaves the reader exactly at `rest`, the first
+    byte after the header (full strength since fix aaeb057) -/
+theorem bio_roundtrip (bits : List Bool) (rest : List Nat) (hne : bits ≠ []) :
+    headerRoundTrip BioR.alignToByte bits rest = some (bits, rest) := bio_roundtrip' bits rest hne
 
-/-- bounded instance of the statement above (every bit string of the stuffing-critical shapes up to 18 bits:
-    a run of k ones followed by a tail), not a proof of it -/
-theorem bio_roundtrip_bounded_partial :
-    ∀ k < 10, ∀ tail ∈ [[], [false], [true], [true, false, true], [false, true, true, true, true, true, true, true, true]],
-      ((BioR.new (BioW.new.writeBitsList (List.replicate k true ++ tail)).flush).readBitsList
-        (List.replicate k true ++ tail).length).map (·.1) = some (List.replicate k true ++ tail) := by
+example : headerRoundTrip BioR.alignToByte [true, false, true, true, true, true, true, true, true, true, true] [0xA5] =
+    some ([true, false, true, true, true, true, true, true, true, true, true], [0xA5]) := by decide
+
+/-- regression anchor (old defect `j2k-packet-header-full-0xFF-align`, root cause of the rare ≈1/3000 failures):
+    a header whose bits end exactly on a byte 0xFF — eight 1-bits — is flushed as FF 00; the old alignToByte
+    (early return when ct = 0) left the stuffing byte 00 unread, the repaired one consumes it -/
+example : (BioW.new.writeBitsList (List.replicate 8 true)).flush = [255, 0] ∧
+    headerRoundTrip BioR.alignToByteOld (List.replicate 8 true) [0x80] = some (List.replicate 8 true, [0, 0x80]) ∧
+    headerRoundTrip BioR.alignToByte (List.replicate 8 true) [0x80] = some (List.replicate 8 true, [0x80]) := by
   decide
 
 /-- composition of abstract layers: if every layer inverts on its domain and hands its successor an
@@ -144,3 +208,108 @@ example : ∃ l : Layer Int (Int × Int), l.ok 200 ∧ l.enc 200 = (200, 0) :=
      ok := fun s => s = 200, contract := by intro x hx; subst hx; decide }, rfl, by decide⟩
 
 end J2k
+
+/-! ## Tag trees (jpeg2000/t2/tagtree.go) — used by every packet header (inclusion and zero-bit-plane trees) -/
+namespace J2kTT
+
+/-- the queries of a header sequence: leaf (x, y) with threshold t, as root→leaf paths of a w×h tree -/
+def queries (w h : Nat) (qs : List (Nat × Nat × Nat)) : List (List Node × Nat) :=
+  qs.map fun q => (ttPath w h q.1 q.2.1, q.2.2)
+
+/-- tag-tree round trip, every w×h, every sequence of (leaf, threshold) queries, from ANY pair of encoder /
+    decoder tree states in lock step (`Inv`; in particular two fresh trees): the decoder, fed the encoder's bits
+    followed by anything, consumes exactly those bits, ends in lock step again, and answers each query with the
+    leaf's value when it is below the threshold (or was already known) and with the sentinel 999 plus the fact
+    `threshold ≤ value` otherwise.  Hypotheses: thresholds ≤ 999 (the Go sentinel) and the heap property of the
+    encoder's node values, which `tagtree_setValue` shows SetValue maintains. -/
+theorem tagtree_roundtrip (w h : Nat) (qs : List (Nat × Nat × Nat)) (se : TTEnc) (sd : TTDec) (rest : List Bool)
+    (hinv : Inv se sd) (hheap : GlobalHeap se.val (ttNumLevels w h)) (ht : ∀ q ∈ qs, q.2.2 ≤ sentinel) :
+    ∃ sd' rs, sd.decodeAll (queries w h qs) ((se.encodeAll (queries w h qs)).2 ++ rest) = some (sd', rs, rest) ∧
+      Inv (se.encodeAll (queries w h qs)).1 sd' ∧ (se.encodeAll (queries w h qs)).1.val = se.val ∧
+      AnswersAll se.val (queries w h qs) rs := by
+  apply all_sync
+  · exact hinv
+  · intro q hq
+    unfold queries at hq
+    obtain ⟨q0, hq0, rfl⟩ := List.mem_map.mp hq
+    exact ⟨ht q0 hq0, heapPath_ttPath se.val w h q0.1 q0.2.1 hheap⟩
+
+/-- SetValue (minimum propagation with early break) keeps the heap property, and — when the value set is not
+    below anything already signalled — the encoder/decoder lock step; fresh trees satisfy both -/
+theorem tagtree_setValue (w h x y v : Nat) (se : TTEnc) (sd : TTDec) (hinv : Inv se sd)
+    (hheap : GlobalHeap se.val (ttNumLevels w h)) (hlow : ∀ n, se.low n ≤ v) (hv : v ≤ sentinel) :
+    Inv (se.setValue w h x y v) sd ∧ GlobalHeap (se.setValue w h x y v).val (ttNumLevels w h) ∧
+    Inv TTEnc.init TTDec.init ∧ GlobalHeap TTEnc.init.val (ttNumLevels w h) :=
+  ⟨setValue_inv se sd w h x y v hinv hlow hv, by rw [setValue_val_eq]; exact setValue_globalHeap se.val _ x y v hheap,
+    inv_init, globalHeap_init _⟩
+
+/-- Go's flat node index `py*levelWidths[level] + px` neither aliases two nodes of a level nor leaves the
+    allocated `levelWidths·levelHeights` array -/
+theorem tagtree_index_sound (lw lh : Nat) (a b : Node) (ha : a.2.1 < lw) (hb : b.2.1 < lw) (hl : a.1 = b.1)
+    (hy : a.2.2 < lh) : (flatten lw a = flatten lw b → a = b) ∧ flatten lw a < lw * lh :=
+  ⟨flatten_inj lw a b ha hb hl, flatten_in_range lw lh a ha hy⟩
+
+/-- non-vacuity: a 3×2 inclusion-style tree, leaves set to layers 0/2, queried with growing thresholds -/
+example :
+    let se := ((TTEnc.init.setValue 3 2 0 0 0).setValue 3 2 2 1 2)
+    let qs := queries 3 2 [(0, 0, 1), (2, 1, 1), (1, 0, 1), (2, 1, 3)]
+    ttNumLevels 3 2 = 3 ∧ ttPath 3 2 2 1 = [(2, 0, 0), (1, 1, 0), (0, 2, 1)] ∧
+    (se.encodeAll qs).2 = [true, true, true, false, false, false, true, true] ∧
+    (TTDec.init.decodeAll qs ((se.encodeAll qs).2 ++ [true, false])).map (fun r => (r.2.1, r.2.2)) =
+      some ([0, 999, 999, 2], [true, false]) := by decide
+
+end J2kTT
+
+/-! ## decodePacket: per-band header state across the packets of a precinct (t2/packet_decoder.go) -/
+namespace J2kBand
+
+/-- `p` applied n times -/
+def iter {S : Type} (p : S → S) : Nat → S → S
+  | 0, x => x
+  | n + 1, x => p (iter p n x)
+
+/-- the packets of one precinct, layer after layer -/
+def packets {S : Type} (nonEmpty : Nat → Bool) (fresh : S) (p : S → S) (bands : List Nat) : Nat → Ctx S → Ctx S
+  | 0, c => c
+  | n + 1, c => packetStep nonEmpty fresh p bands (packets nonEmpty fresh p bands n c)
+
+/-- invariant of the repaired bookkeeping (fix 120e6ac): after every packet "the state written back for band b
+    is the state read for band b, updated by the header parser": each band that has code-blocks carries the
+    parser's update of ITS OWN previous state, bands without code-blocks never get a context, nothing else moves.
+    `p` is an arbitrary header-parser effect; bands are distinct; contexts start absent. -/
+theorem band_state_writeback {S : Type} (nonEmpty : Nat → Bool) (fresh : S) (p : S → S) (bands : List Nat)
+    (hnd : bands.Nodup) (n : Nat) :
+    ∀ b, packets nonEmpty fresh p bands n (fun _ => none) b =
+      if b ∈ bands ∧ nonEmpty b = true ∧ 0 < n then some (iter p n fresh) else none := by
+  induction n with
+  | zero => intro b; simp [packets]
+  | succ n ih =>
+    intro b
+    unfold packets
+    rw [packetStep_eq nonEmpty fresh p bands _ hnd]
+    · unfold expected
+      rw [ih b]
+      by_cases hb : b ∈ bands ∧ nonEmpty b = true
+      · by_cases hn : 0 < n
+        · simp [hb, hn, iter]
+        · have : n = 0 := by omega
+          subst this; simp [hb, iter]
+      · have : ¬ (b ∈ bands ∧ nonEmpty b = true ∧ 0 < n + 1) := fun h => hb ⟨h.1, h.2.1⟩
+        have h2 : ¬ (b ∈ bands ∧ nonEmpty b = true ∧ 0 < n) := fun h => hb ⟨h.1, h.2.1⟩
+        simp [hb, this, h2]
+    · intro b hb hne
+      rw [ih b]; simp [hne]
+
+/-- regression anchor (old defect `j2k-multilayer-empty-band-decoder-state`): resolution of width 1 — only LH
+    (band 2) has code-blocks. Old shape: the state of band 2 is never written back (i = 1 ≥ len(bandStates) = 1),
+    so the second layer starts from a fresh state again; repaired shape: the counter increments survive.
+    States are counters, the parser effect is +1. -/
+example :
+    let ne : Nat → Bool := fun b => b == 2
+    (packetStepOld ne 0 (· + 1) [1, 2, 3] (packetStepOld ne 0 (· + 1) [1, 2, 3] (fun _ => none))) 2 = some 0 ∧
+    (packetStep ne 0 (· + 1) [1, 2, 3] (packetStep ne 0 (· + 1) [1, 2, 3] (fun _ => none))) 2 = some 2 ∧
+    -- old shape, bands 2 and 3 non-empty: band 2 receives band 3's state
+    (packetStepOld (fun b => b != 1) 0 (· + 1) [1, 2, 3]
+      (fun b => if b == 2 then some 10 else if b == 3 then some 20 else none)) 2 = some 21 := by decide
+
+end J2kBand
